@@ -1,6 +1,6 @@
 # C11 spec (see tools/props.py)
 SPEC = {
-        "ready": False,
+        "ready": True,
         "sources": ["c11.cpp", "c11_cases_f.cpp", "c11_cases_d.cpp", "c11_misc.cpp", "c11_near.cpp"],
         "lib": ["ImathMatrixAlgo.cpp"],
         "technique": "exhaustive enumeration of 24 orders x angle grids and gimbal-lock families against a long-double product of elementary axis rotations",
